@@ -99,7 +99,7 @@ Theorem finish_full (t : terminal) :
   is_find t = false ->
   (forall f, red_family t = Some f ->
      (forall a b c, f (f a b) c = f a (f b c)) /\ (forall a b, f a b = f b a)) ->
-  req (finish t pe n (kind_of p) wl) (fst (finish_seq t (flat_map (trace p) src) src p)).
+  req (finish t pe n (kind_of p) 0 wl) (fst (finish_seq t (flat_map (trace p) src) src p)).
 Proof.
   intros t_full op_ok.
   pose proof vals_yields as VY.
@@ -109,14 +109,14 @@ Proof.
   destruct t; try discriminate t_full; cbn [finish finish_seq fst req].
   - (* collect_vec *)
     destruct (kind_of p) eqn:Ek; try (rewrite (res_col_eq pe Hout (fun _ => eq_refl)), VY; reflexivity).
-    rewrite (BP [] eq_refl). reflexivity.
+    rewrite res_map_col_adv_0, (BP [] eq_refl). reflexivity.
   - destruct (kind_of p) eqn:Ek; try (rewrite (res_col_eq pe Hout (fun _ => eq_refl)), VY; reflexivity).
-    rewrite (BP [] eq_refl). reflexivity.
+    rewrite res_map_col_adv_0, (BP [] eq_refl). reflexivity.
   - (* collect_x *)
     rewrite <- VY. apply (res_colx_perm pe Hout). reflexivity.
   - (* collect_into *)
     destruct (kind_of p) eqn:Ek; try (rewrite (res_col_eq pe Hout (fun _ => eq_refl)), VY; reflexivity).
-    rewrite (BP _ eq_refl). reflexivity.
+    rewrite res_map_col_adv_0, (BP _ eq_refl). reflexivity.
   - (* count *)
     rewrite (res_cnt_eq pe Hout (fun _ => eq_refl)), VY. reflexivity.
   - (* for_each *)
@@ -148,7 +148,7 @@ Hypothesis Hout : Outcome n (stop_of p src) wl.
 
 Theorem finish_find (t : terminal) :
   is_find t = true ->
-  finish t pe n (kind_of p) wl = fst (finish_seq t (flat_map (trace p) src) src p).
+  finish t pe n (kind_of p) 0 wl = fst (finish_seq t (flat_map (trace p) src) src p).
 Proof.
   intros t_find.
   assert (E : res_find pe wl = find_in pe (seq 0 n)).
@@ -172,7 +172,7 @@ Hypothesis op_ok : forall f, red_family t = Some f ->
   (forall a b c, f (f a b) c = f a (f b c)) /\ (forall a b, f a b = f b a).
 
 Lemma finish_of_outcome wl : Outcome n stop wl ->
-  req (finish t (pe_of p src) n (kind_of p) wl) (fst (finish_seq t (flat_map (trace p) src) src p)).
+  req (finish t (pe_of p src) n (kind_of p) 0 wl) (fst (finish_seq t (flat_map (trace p) src) src p)).
 Proof.
   unfold stop. intros H. destruct (is_find t) eqn:E.
   - pose proof (finish_find H t E) as F. unfold n. rewrite F.
@@ -183,14 +183,14 @@ Qed.
 (** indexed sources *)
 Theorem exec_value_indexed sched :
   all_done (mrun r n stop sched) ->
-  req (finish t (pe_of p src) n (kind_of p) (ws (mrun r n stop sched)))
+  req (finish t (pe_of p src) n (kind_of p) 0 (ws (mrun r n stop sched)))
       (fst (finish_seq t (flat_map (trace p) src) src p)).
 Proof. intros Hd. apply finish_of_outcome. apply mrun_outcome; auto. Qed.
 
 (** by-value iterator sources, ordered or first-come handle *)
 Theorem exec_value_iter ordered sched :
   iall_done (imrun r n ordered stop sched) ->
-  req (finish t (pe_of p src) n (kind_of p) (map wk (iws (imrun r n ordered stop sched))))
+  req (finish t (pe_of p src) n (kind_of p) 0 (map wk (iws (imrun r n ordered stop sched))))
       (fst (finish_seq t (flat_map (trace p) src) src p)).
 Proof. intros Hd. apply finish_of_outcome. apply imrun_outcome; auto. Qed.
 
@@ -198,7 +198,7 @@ Proof. intros Hd. apply finish_of_outcome. apply imrun_outcome; auto. Qed.
 Theorem exec_value_macro sched :
   all_done (macro_run n (match r_input_len r with Some _ => true | None => false end) stop (@nopanic) r
                       (init (m_c0 r)) sched) ->
-  req (finish t (pe_of p src) n (kind_of p)
+  req (finish t (pe_of p src) n (kind_of p) 0
               (ws (macro_run n (match r_input_len r with Some _ => true | None => false end) stop (@nopanic) r
                              (init (m_c0 r)) sched)))
       (fst (finish_seq t (flat_map (trace p) src) src p)).
